@@ -50,16 +50,6 @@ rl.ENGINE = ENGINE      # the helpers of resolvelib describe hidden Engine param
 NONDETERMINISTIC = {'now', 'random', 'randomInt'}
 
 
-def mirrored_overloads(defs, name):
-    """two overloads of the name take the same visible parameter names in a different order"""
-    sigs = []
-    for _, n, fd in defs:
-        if n == name:
-            vis, _ = visible_params(fd)
-            sigs.append(tuple(p.alias or p.name for p in vis))
-    return any(a != b and sorted(a) == sorted(b) for a in sigs for b in sigs)
-
-
 class Timeout(Exception):
     pass
 
@@ -489,8 +479,8 @@ def run(env, res):
                     # plain name resolution picks this definition positionally; a keyword spelling that then is
                     # AMBIGUOUS (not: answered by another overload that owns these names) contradicts the statement
                     amb = [(t, o) for t, o in outs_u if o.startswith('err:Ambiguous')]
-                    if amb and mirrored_overloads(defs, name):
-                        res.fail('oracle', 'kw-mirrored-overloads',
+                    if amb:
+                        res.fail('oracle', 'kw-ambiguous:' + name,
                                  '%s %r: positional -> %s but by keyword (%s) -> %s' % (
                                      name, labels, base[:80], amb[0][0], amb[0][1]), case)
             # (B) the model on the same spellings, against the real definition's own binding
